@@ -133,19 +133,59 @@ func ObjID(p *int) int {
 // Stats accumulated over all executions of this process.
 var (
 	TotalSteps  int64
-	stateSet    = map[uint64]struct{}{}
+	stateTab    []uint64 // open-addressing hash set (no Go map: map operations are race-instrumented inside the runtime even when called from //go:norace code)
+	stateN      int
 	stateCap    = 3000000
 	StateCapHit bool
 	TrackStates = true
 )
 
-func StateCount() int { return len(stateSet) }
+func StateCount() int { return stateN }
 func StateHashes() []uint64 {
-	out := make([]uint64, 0, len(stateSet))
-	for k := range stateSet {
-		out = append(out, k)
+	out := make([]uint64, 0, stateN)
+	for _, k := range stateTab {
+		if k != 0 {
+			out = append(out, k)
+		}
 	}
 	return out
+}
+
+// stateAdd inserts h (0 is mapped to 1) and reports whether it was new.
+func stateAdd(h uint64) bool {
+	if h == 0 {
+		h = 1
+	}
+	if len(stateTab) == 0 {
+		stateTab = make([]uint64, 1<<16)
+	}
+	if stateN*2 >= len(stateTab) {
+		old := stateTab
+		stateTab = make([]uint64, len(old)*2)
+		stateN = 0
+		for _, k := range old {
+			if k != 0 {
+				stateInsert(k)
+			}
+		}
+	}
+	return stateInsert(h)
+}
+
+func stateInsert(h uint64) bool {
+	mask := uint64(len(stateTab) - 1)
+	i := (h * 0x9e3779b97f4a7c15) & mask
+	for {
+		switch stateTab[i] {
+		case 0:
+			stateTab[i] = h
+			stateN++
+			return true
+		case h:
+			return false
+		}
+		i = (i + 1) & mask
+	}
 }
 
 // SetFingerprint installs a harness-supplied data fingerprint mixed into every state hash.
@@ -495,41 +535,37 @@ func (s *Sched) recordState(en []*Task, meEn bool, me *Task) {
 		return
 	}
 	h := uint64(14695981039346656037)
-	mix := func(x uint64) {
-		h ^= x
-		h *= 1099511628211
-	}
 	for _, t := range s.tasks {
 		if t.done {
 			continue
 		}
-		mix(uint64(t.id)*31 + 7)
+		h = mix64(h, uint64(t.id)*31+7)
 		for i := 0; i < len(t.op); i++ {
-			mix(uint64(t.op[i]))
+			h = mix64(h, uint64(t.op[i]))
 		}
-		mix(uint64(t.obj) + 0x9e37)
+		h = mix64(h, uint64(t.obj)+0x9e37)
 		for i := 0; i < len(t.name); i++ {
-			mix(uint64(t.name[i]))
+			h = mix64(h, uint64(t.name[i]))
 		}
 	}
-	mix(uint64(me.id) + 0x51ed)
+	h = mix64(h, uint64(me.id)+0x51ed)
 	if s.fp != nil {
-		mix(s.fp())
+		h = mix64(h, s.fp())
 	}
 	// pending timers relative to now
 	for _, tm := range s.timers {
 		if !tm.dead {
-			mix(uint64(tm.when-s.now) + 3)
+			h = mix64(h, uint64(tm.when-s.now)+3)
 		}
 	}
-	if _, ok := stateSet[h]; !ok {
-		if len(stateSet) >= stateCap {
-			StateCapHit = true
-			return
-		}
-		stateSet[h] = struct{}{}
+	if stateN >= stateCap {
+		StateCapHit = true
+		return
 	}
+	stateAdd(h)
 }
+
+func mix64(h, x uint64) uint64 { return (h ^ x) * 1099511628211 }
 
 // choose records a choice point.
 func (s *Sched) choose(n int, kind byte, curEn bool) int {
